@@ -59,7 +59,10 @@ def generate_econ_ic(seed, S):
     for sh, code, var in rng.sample(cands, rng.randint(1, 4)):
         if var == 'DEM_GOOD':
             continue      # exogenous in these programs: initial conditions on exogenous variables are out of scope
-        val = rng.choice([0.0, 0.0, round(rng.uniform(-50, 150), 2), float(rng.randint(1, 90))])
+        val = rng.choice([0.0, 0.0, round(rng.uniform(-50, 150), 2), float(rng.randint(1, 90)),
+                          # values as a program computes them: every digit counts, and small is not zero
+                          rng.uniform(-50, 150), 1.0 / rng.randint(3, 97), rng.uniform(1, 9) * 10.0 ** rng.randint(-14, -9),
+                          1234.0 + 1.0 / 3.0])
         if rng.random() < 0.5:
             new.append({'op': 'AddInitialCondition', 'by': 'sector', 'sector': sh, 'var': var, 'value': val})
         else:
